@@ -155,6 +155,8 @@ def build_sessions(rng, n):
                 S.append(dict(kind='failing-step/' + k, args=['0x' + s.hex()], scripts=[('script', s)], fail_at=len(decode_all(pre)) + 1))
             else:
                 ssig = pre if rng.random() < 0.5 else bytes([OP_1])
+                if rng.random() < 0.5:
+                    ssig += bytes([OP_5, OP_TOALTSTACK])       # (something on the alt stack when the switch is refused)
                 spk = b''.join(push_only(bytes([0x61]) * 520) for _ in range(20))[:10001] + bytes([OP_NOP]) * 3
                 if len(spk) <= 10000 or decode_all(spk) is None:
                     spk = b''.join(push_only(bytes([0x61]) * 520) for _ in range(19)) + bytes([OP_NOP]) * 200
